@@ -320,6 +320,9 @@ func TestC06Reporter(t *testing.T) {
 			h := NewMaprHandler(fmt.Sprintf("srv%d", s+1), query, global)
 			for r := 0; r < rounds; r++ {
 				g := fmt.Sprintf("g%d", (r*7+s)%(rounds*2)) // new groups keep appearing for the whole run
+				if r%2 == 0 {
+					g = fmt.Sprintf("hot%d", r%3) // ... and a few groups every server reports all the time (group by $loglevel)
+				}
 				msg := fmt.Sprintf("AGGREGATE|srv%d|%s∥3∥count($line)≔3∥$g≔%s∥", s+1, g, g)
 				h.Write(append([]byte(msg), 0xAC))
 			}
@@ -342,4 +345,60 @@ func TestC06Reporter(t *testing.T) {
 		}
 	}
 	vWriteJSON(t, "VERIF_OUT", map[string]interface{}{"expected": nsrv * rounds * 3, "counted": total, "groups": groups, "reports": reports})
+}
+
+// Many servers reporting the SAME groups at the same moment (group by $loglevel): the handlers' merges into the global
+// result go straight at the same aggregate sets.  16 workers merge a prepared partial result (3 groups, 8 aggregated
+// columns) in a tight loop; afterwards every count, sum and sample count must be exact.
+func TestC06MergeStress(t *testing.T) {
+	vInit("none")
+	iters := 20000
+	fmt.Sscanf(os.Getenv("VERIF_N"), "%d", &iters)
+	cols := []string{"count($line)", "sum($a)", "sum($b)", "sum($c)", "sum($d)", "max($a)", "min($a)", "avg($b)"}
+	query, err := mapr.NewQuery("select " + strings.Join(cols, ",") + ",$g group by $g")
+	if err != nil {
+		t.Fatal(err)
+	}
+	global := mapr.NewGlobalGroupSet()
+	workers := 16
+	var wg sync.WaitGroup
+	for w := 0; w < workers; w++ {
+		wg.Add(1)
+		go func(w int) {
+			defer wg.Done()
+			for i := 0; i < iters; i++ {
+				local := mapr.NewGroupSet()
+				for g := 0; g < 3; g++ {
+					set := local.GetSet(fmt.Sprintf("hot%d", g))
+					for _, c := range cols {
+						set.FValues[c] = 1
+					}
+					set.SValues["$g"] = fmt.Sprintf("hot%d", g)
+					set.Samples = 1
+				}
+				if err := global.Merge(query, local); err != nil {
+					panic(err)
+				}
+			}
+		}(w)
+	}
+	wg.Wait()
+	res, n, err := global.Result(query, 100)
+	bad := ""
+	want := workers * iters
+	if err != nil || n != 3 {
+		bad = fmt.Sprintf("result: %d groups, err %v", n, err)
+	}
+	for _, l := range strings.Split(res, "\n") {
+		f := strings.Split(l, "|")
+		if len(f) < len(cols)+1 || !strings.Contains(l, "hot") {
+			continue
+		}
+		for ci := 0; ci < 5; ci++ { // the count and the four sums
+			if v, err := strconv.ParseFloat(strings.TrimSpace(f[ci]), 64); err != nil || int(v+0.5) != want {
+				bad = fmt.Sprintf("group %s: column %s is %s after %d merges of 1 each", strings.TrimSpace(f[len(f)-1]), cols[ci], strings.TrimSpace(f[ci]), want)
+			}
+		}
+	}
+	vWriteJSON(t, "VERIF_OUT", map[string]interface{}{"merges": want, "bad": bad, "result": res})
 }
